@@ -678,7 +678,7 @@ func cdrCheck(t *testing.T, prop string) int {
 		}
 		perScen = append(perScen, map[string]any{"scenario": sc.name, "depth_bound": sc.depth, "depth_completed": st.MaxDepthDone, "states": st.States, "transitions": st.Transitions, "per_level": st.PerLevel})
 	}
-	sweep := map[int]bool{}
+	sweep, sweepPartial := map[int]bool{}, map[int]bool{}
 	if prop == "C03" {
 		// boundary sweep: every record size in a window below (and just above) the 65535-octet limit
 		bulkOp := func(n int) Op {
@@ -706,12 +706,21 @@ func cdrCheck(t *testing.T, prop string) int {
 			per := float64(s2-s1) / 400
 			n0 = 3000 + int((65535-130-float64(s1))/per)
 		}
-		if n0 > 0 {
-			sp := BFSSpec{Name: "size-sweep", Check: prop, Oracle: "C03", Cfg: WorldCfg{Accounts: bigAccounts}, Supis: []string{supiA},
-				Prefix: []Op{mkCreate(0, "smf1"), bulkOp(n0)}, MaxDepth: 1,
+		// two starting records: ~130 octets below the limit (reached by 4-6 further containers) and ~45 octets below it
+		// (reached by 1-2 containers: a small request next to an almost full record)
+		for pi, nPre := range []int{n0, n0 + 5} {
+			if n0 <= 0 {
+				break
+			}
+			mMin, mMax := 1, 6
+			if pi == 1 {
+				mMax = 3
+			}
+			sp := BFSSpec{Name: fmt.Sprintf("size-sweep-%d", pi), Check: prop, Oracle: "C03", Cfg: WorldCfg{Accounts: bigAccounts}, Supis: []string{supiA},
+				Prefix: []Op{mkCreate(0, "smf1"), bulkOp(nPre)}, MaxDepth: 1,
 				Alphabet: func(json.RawMessage, int) (ops []Op) {
 					grow := []int32{10, 1000, 100000, 100000000} // 1..4 content octets
-					for m := 1; m <= 6; m++ {
+					for m := mMin; m <= mMax; m++ {
 						for fat := 0; fat <= 15*m && fat <= 32; fat++ {
 							f := fat
 							lv := func() int32 { x := grow[min(f, 3)]; f -= min(f, 3); return x }
@@ -730,17 +739,28 @@ func cdrCheck(t *testing.T, prop string) int {
 								// the record must be inside the size limit as well)
 								ops = append(ops, Op{K: "update", S: 0, MUs: []MU{{RG: 1, Req: 10, Conts: cs}},
 									Trig: []string{"QHT", "QT", "QHT", "QT", "QHT", "QT", "QHT", "QT", "QHT", "QT", "QHT", "QT"}})
+								// ... and as online usage with a volume-limit trigger: the record is closed as a partial record
+								// and reopened (closing and reopening add members of their own to a record that is almost full)
+								on := append([]Cont(nil), cs...)
+								for i := range on {
+									on[i].Offline = false
+								}
+								ops = append(ops, Op{K: "update", S: 0, MUs: []MU{{RG: 1, Req: 10, Conts: on}}, Trig: []string{"VOLIMM"}})
 							}
 						}
 					}
 					return
 				},
-				OnState: func(_ []Op, ib json.RawMessage) {
+				OnState: func(ops []Op, ib json.RawMessage) {
 					var in cdrInfo
 					json.Unmarshal(ib, &in)
+					partial := len(ops) > 0 && hasTrig(ops[len(ops)-1], "VOLIMM")
 					for _, x := range in.Sizes {
 						if x > 65535-200 {
 							sweep[x] = true
+							if partial {
+								sweepPartial[x] = true
+							}
 						}
 					}
 				}}
@@ -766,6 +786,14 @@ func cdrCheck(t *testing.T, prop string) int {
 				missing = append(missing, x)
 			}
 		}
+		var partialTop []int
+		for x := range sweepPartial {
+			if x >= 65535-12 {
+				partialTop = append(partialTop, x)
+			}
+		}
+		sort.Ints(partialTop)
+		rep.Cov["size_sweep_partial_records"] = map[string]any{"sizes_reached_by_records_closed_and_reopened_as_partial": len(sweepPartial), "of_them_within_12_octets_of_the_limit": partialTop}
 		rep.Cov["size_sweep"] = map[string]any{"bulk_containers": n0, "record_sizes_reached_above_65335": len(sweep), "window": []int{lo, hi}, "largest_record_reached": maxReached, "sizes_in_window_not_reached": missing}
 		if len(missing) > 0 {
 			exhaustive = false
